@@ -888,6 +888,9 @@ type c02Gen struct {
 	baseMs   int64
 	sessions []*c02GenSession
 	codes    []c02GenCode
+	forceDomain  *string // audience of the main presentation, when set (targeted audience scenarios)
+	forceFormat  *int    // 0 JSON-LD, 1 JWT (aud string), 2 JWT (aud array), when set
+	forceSubject *string
 	forceCreated *int64 // offset of `created` relative to now, when set
 	forceExpires *int64 // validity, when set
 }
@@ -1186,6 +1189,9 @@ func (g *c02Gen) baselineVP(subject string, d c02DefSpec, holder string, now int
 	if g.rng.Intn(4) == 0 {
 		vp.JWT, vp.AudExtra = true, g.rng.Intn(2) == 0
 	}
+	if g.forceFormat != nil {
+		vp.JWT, vp.AudExtra = *g.forceFormat > 0, *g.forceFormat == 2
+	}
 	for _, in := range d.Descriptors {
 		c := c02CredSpec{Type: in.Type, Subject: &holder, Fields: map[string]interface{}{}}
 		for _, f := range in.Fields {
@@ -1379,7 +1385,7 @@ func (g *c02Gen) authResponse(sess *c02GenSession, defects []string, now int64) 
 		m = &vps[0]
 	}
 	if has("wrong-audience") {
-		m.Domain = c02Ptr("https://evil.example/oauth2/" + subject)
+		m.Domain = c02Ptr(g.wrongAudience(subject))
 	}
 	if has("verify-fails") {
 		vps[g.rng.Intn(len(vps))].Verifies = false
@@ -1390,6 +1396,9 @@ func (g *c02Gen) authResponse(sess *c02GenSession, defects []string, now int64) 
 	if has("unfulfilled") && len(m.Creds) > 0 {
 		m.Creds[0].Type = "WrongType"
 		expectPex = false
+	}
+	if g.forceDomain != nil {
+		m.Domain = g.forceDomain
 	}
 	for i := range vps {
 		// server-generated nonces (known by name only) cannot be substituted inside a JWT
@@ -1572,6 +1581,31 @@ var c02Defects = []string{"wrong-audience", "overlong", "missing-expiry", "reuse
 	"unknown-subject", "bad-dpop", "garbage-assertion", "garbage-submission", "missing-param", "subject-without-id", "no-proof",
 	"other-tenant-audience", "empty-vp-between"}
 
+// wrongAudience returns an audience that is NOT the authorization server URL of `subject`: unrelated, another tenant of
+// this node (also one whose id extends / is a prefix of this one), the URL extended (suffix, trailing slash, path,
+// query, fragment), a proper prefix of the URL, a case variant.
+func (g *c02Gen) wrongAudience(subject string) string {
+	exp := c02PublicURL + "/oauth2/" + subject
+	var others []string
+	for _, o := range g.subjects {
+		if o != subject {
+			others = append(others, c02PublicURL+"/oauth2/"+o)
+			if strings.HasPrefix(o, subject) || strings.HasPrefix(subject, o) {
+				// the prefix-related tenant, weighted
+				others = append(others, c02PublicURL+"/oauth2/"+o, c02PublicURL+"/oauth2/"+o)
+			}
+		}
+	}
+	variants := []string{
+		"https://evil.example/oauth2/" + subject,
+		exp + "2", exp + "-test", exp + "/", exp + "/token", exp + "?x=1", exp + "#f", exp + " ",
+		exp[:len(exp)-1], c02PublicURL + "/oauth2/", c02PublicURL + "/oauth2", c02PublicURL,
+		strings.ToUpper(exp), strings.Replace(exp, "https://", "http://", 1), "",
+	}
+	variants = append(variants, others...)
+	return variants[g.rng.Intn(len(variants))]
+}
+
 func (g *c02Gen) scopeDefs(scope string) []c02Def {
 	for _, p := range g.policy {
 		if p.Scope == scope {
@@ -1584,6 +1618,9 @@ func (g *c02Gen) scopeDefs(scope string) []c02Def {
 // s2sRequest builds a vp_token-bearer request from a valid one plus the given defects
 func (g *c02Gen) s2sRequest(defects []string, now int64) c02Op {
 	subject := g.pick(g.subjects)
+	if g.forceSubject != nil {
+		subject = *g.forceSubject
+	}
 	pol := g.policy[g.rng.Intn(len(g.policy))]
 	scope := pol.Scope
 	target := pol.Defs[g.rng.Intn(len(pol.Defs))] // the definition the submission fulfils
@@ -1618,17 +1655,22 @@ func (g *c02Gen) s2sRequest(defects []string, now int64) c02Op {
 	m := &vps[mainIdx]
 	expectPex := true
 	if has("wrong-audience") {
-		m.Domain = c02Ptr("https://evil.example/oauth2/" + subject)
-		if g.rng.Intn(3) == 0 {
+		m.Domain = c02Ptr(g.wrongAudience(subject))
+		if g.rng.Intn(6) == 0 {
 			m.Domain = nil
 		}
 	}
 	if has("other-tenant-audience") {
-		o := g.subjects[0]
-		if o == subject {
-			o = g.subjects[1]
+		var o []string
+		for _, x := range g.subjects {
+			if x != subject {
+				o = append(o, x)
+				if strings.HasPrefix(x, subject) || strings.HasPrefix(subject, x) {
+					o = append(o, x, x)
+				}
+			}
 		}
-		m.Domain = c02Ptr(c02PublicURL + "/oauth2/" + o)
+		m.Domain = c02Ptr(c02PublicURL + "/oauth2/" + o[g.rng.Intn(len(o))])
 	}
 	if has("overlong") {
 		m.Expires = c02Ptr(*m.Created + 5001 + int64(g.rng.Intn(2))*60000)
@@ -1682,6 +1724,9 @@ func (g *c02Gen) s2sRequest(defects []string, now int64) c02Op {
 	}
 	if has("no-proof") {
 		m.NoProof = true
+	}
+	if g.forceDomain != nil {
+		m.Domain = g.forceDomain
 	}
 	multi := len(vps) > 1
 	sub := c02Submission(d, mainIdx, multi, 0)
@@ -1889,7 +1934,7 @@ func c02Targeted(t *testing.T, out *c02Out, seed int64) {
 	rng := rand.New(rand.NewSource(seed*31 + 5))
 	// (a)
 	for _, name := range fields {
-		g := &c02Gen{rng: rng, subjects: []string{"alpha", "beta"}}
+		g := &c02Gen{rng: rng, subjects: []string{"alpha", "alpha2", "beta"}}
 		d := c02DefSpec{Key: 0, ID: "pd0", Descriptors: []c02Descriptor{{ID: "d0", Type: "Cred0", Fields: []c02FieldSpec{{ID: name, Name: "f_" + name}}}}}
 		g.defs = []c02DefSpec{d}
 		g.policy = []c02Policy{{Scope: "s0", Defs: []c02Def{{Owner: "organization", ID: d.ID, Key: 0}}}}
@@ -1922,8 +1967,42 @@ func c02Targeted(t *testing.T, out *c02Out, seed int64) {
 		}
 		w.ctrl.Finish()
 	}
+	// (c) audiences that are not exactly this authorization server: the URL of a tenant whose id extends / is a prefix of
+	//     this one, the URL with something appended, proper prefixes - JSON-LD proof domain, JWT aud (string, array), and
+	//     the OpenID4VP response step; the exact URL as control
+	{
+		g := &c02Gen{rng: rng, subjects: []string{"alpha", "alpha2", "beta"}}
+		cfg := g.newConfig(false)
+		w := c02NewWorld(t, cfg)
+		cfg.T = w.nowNs()
+		out.emit(&cfg, "cfg")
+		for _, subject := range []string{"alpha", "alpha2"} {
+			exp := c02PublicURL + "/oauth2/" + subject
+			other := c02PublicURL + "/oauth2/alpha2"
+			if subject == "alpha2" {
+				other = c02PublicURL + "/oauth2/alpha"
+			}
+			for _, aud := range []string{exp, other, exp + "/token", exp + "/", exp + "?x", exp + "x", exp[:len(exp)-1], c02PublicURL + "/oauth2/"} {
+				for f := 0; f < 3; f++ {
+					g.forceSubject, g.forceDomain, g.forceFormat = c02Ptr(subject), c02Ptr(aud), c02Ptr(f)
+					op := g.s2sRequest(nil, w.nowMs())
+					op.Defects = []string{"audience:" + aud}
+					out.emit(&op, w.exec(&op))
+					g.forceSubject = nil
+					seed := g.seed()
+					seed.Session.OwnSubject = subject
+					out.emit(&seed, w.exec(&seed))
+					ar := g.authResponse(g.sessions[len(g.sessions)-1], nil, w.nowMs())
+					ar.Defects = []string{"audience:" + aud}
+					line := w.exec(&ar)
+					out.emit(&ar, line)
+				}
+			}
+		}
+		w.ctrl.Finish()
+	}
 	// (b)
-	g := &c02Gen{rng: rng, subjects: []string{"alpha", "beta"}}
+	g := &c02Gen{rng: rng, subjects: []string{"alpha", "alpha2", "beta"}}
 	cfg := g.newConfig(false)
 	w := c02NewWorld(t, cfg)
 	cfg.T = w.nowNs()
@@ -1995,7 +2074,7 @@ func TestVerifC02(t *testing.T) {
 	}
 	rng := rand.New(rand.NewSource(seed*7919 + 17))
 	for wi := 0; wi < worlds; wi++ {
-		g := &c02Gen{rng: rng, subjects: []string{"alpha", "beta"}}
+		g := &c02Gen{rng: rng, subjects: []string{"alpha", "alpha2", "beta"}}
 		cfg := g.newConfig(wi%3 == 2)
 		w := c02NewWorld(t, cfg)
 		cfg.T = w.nowNs()
@@ -2107,7 +2186,7 @@ func TestVerifC02RealTime(t *testing.T) {
 		t.Skip("VERIF_C02_REALTIME not set")
 	}
 	logrus.SetOutput(io.Discard)
-	g := &c02Gen{rng: rand.New(rand.NewSource(1)), subjects: []string{"alpha", "beta"}}
+	g := &c02Gen{rng: rand.New(rand.NewSource(1)), subjects: []string{"alpha", "alpha2", "beta"}}
 	cfg := g.newConfig(false)
 	w := c02NewWorld(t, cfg)
 	g.forceCreated, g.forceExpires = c02Ptr(int64(4500)), c02Ptr(int64(5000))
